@@ -1359,6 +1359,7 @@ fn deep(sub: &str, n: usize, kind: &str) -> String {
             format!("ok {}", out.len())
         }
         "to_string" => format!("ok {}", jsonb::to_string(&deep_bin(n, kind)).len()),
+        "to_pretty_string" => format!("ok {}", jsonb::to_pretty_string(&deep_bin(n, kind)).len()),
         "compare" => {
             let b = deep_bin(n, kind);
             match jsonb::compare(&b, &b) {
